@@ -355,7 +355,7 @@ fn cull_case(rng: &mut Rng, rep: &mut Report) {
     // ambiguity mask: pixels within 0.02 px of any projected or internal fan
     // edge, for *both* vertex orders (the clip fan differs between them)
     let mk = |tri: [usize; 3]| {
-        let sc = Scene::<f32> { cs: ClipScene { verts: fl.sc.verts.clone(), tris: vec![tri] }, bw: fl.w, bh: fl.h, win: (0, 0, fl.w, fl.h), vp: (0, 0, fl.w, fl.h), flip, tk: Tk::FbOwned, prior_random: false, prior_seed: 0, gen_mode: 0 };
+        let sc = Scene::<f32> { cs: ClipScene { verts: fl.sc.verts.clone(), tris: vec![tri] }, bw: fl.w, bh: fl.h, win: (0, 0, fl.w, fl.h), vp: (0, 0, fl.w, fl.h), flip, tk: Tk::FbOwned, prior_random: false, prior_seed: 0, gen_mode: 0, depth_scale: 1.0 };
         build_oracle(&sc).mask
     };
     let (m1, m2) = (mk(t), mk(rev));
